@@ -140,6 +140,21 @@ func EndLookahead() []*Grammar {
 	return gs
 }
 
+// LookaheadSwitched: a lookahead whose operand is a choice that -switch turns into a switch, with
+// actions, captures or rule references in its alternatives: whatever the operand recorded must
+// be gone after the lookahead, under every option set (added in seeding round 7; part of the
+// families of C02, C04 and C11, the checks whose quick tier was re-run with them).
+func LookaheadSwitched() []*Grammar {
+	a, b, c, x := func() *E { return Lit("a") }, func() *E { return Lit("b") }, func() *E { return Lit("c") }, func() *E { return Lit("x") }
+	var gs []*Grammar
+	add := func(tag string, bodies ...*E) { gs = append(gs, New("shape/"+tag, bodies...)) }
+	add("and-over-switched-choice-actions", Seq(Plus(Seq(And(Alt(Seq(a(), Act()), Seq(b(), Act()), Seq(c(), Act()))), Cap(Dot()), Act())), Not(Dot())))
+	add("and-over-switched-choice-captures", Seq(Cap(Opt(x())), And(Alt(Cap(a()), Cap(b()), Cap(c()))), Act(), Dot(), Opt(x())))
+	add("and-over-switched-choice-rules", Seq(Plus(Seq(And(Alt(Ref(1), Ref(2), Ref(3))), Dot())), Opt(x()), Not(Dot())), a(), b(), Seq(c(), Opt(x())))
+	add("not-over-switched-choice-rules", Seq(Star(Seq(Not(Alt(Seq(Ref(1), x()), Seq(Ref(2), x()), Seq(Ref(3), x()))), Dot())), Opt(x()), Not(Dot())), a(), b(), Seq(Cap(c()), Act()))
+	return gs
+}
+
 // ---- curated shapes named in the properties ----
 
 func Shapes() []*Grammar {
